@@ -3,12 +3,14 @@ package checks
 func init() {
 	Registry["C09"] = func(r *Run) {
 		r.Level = "fault_enumeration"
-		r.Rule = "clean part: every sequence of <=depth ops of the mixed and KV alphabets (incl. commit-time no-ops, reads of never-written buckets in the observation, exact-fill segment sizes) in all index modes x RWMode x StartFileLoadingMode, closed and reopened at every explored state: Open must return nil; crash part: every process-crash image of C10's workloads must open (counted in crash_images)"
+		r.Rule = "clean part: every sequence of <=depth ops of the mixed and KV alphabets (incl. commit-time no-ops, reads of never-written buckets in the observation, exact-fill segment sizes) in all index modes x RWMode x StartFileLoadingMode, closed and reopened at every explored state: Open must return nil; the same over C08's many-files histories (up to 24 one-record segments, restarts in between); crash part: every process-crash image of C10's workloads must open (counted in crash_images)"
 		r.Assume = []string{"directories are produced only by this library through the explored histories"}
 		r.Required = []string{"reopen-at-leaf", "exact-fill-segment"}
 		for _, p := range c09Profiles(r.Tier) {
 			r.Explore(p, "C09")
 		}
+		// directories with two-digit file ids, restarted, written to again and restarted
+		r.Explore(c08ManyFilesProfile(r.Tier), "C09")
 		c09CrashPart(r)
 	}
 }
